@@ -464,3 +464,26 @@ Definition special_table_ok : bool :=
   forallb (fun o => forallb (fun v =>
     match gen_special o v with Some c => saction_beq c (spec_special o v) | None => false end)
     special_reps) all_binop.
+
+(** the same for the check script (plain tuples): cells of the three tables that differ *)
+Definition optable_cells :=
+  map (fun c => match c with (o, ta, tb, f, g, s) => (o, ta, tb, (f_lempty f, f_rempty f, f_rzero f), g, s) end)
+      optable_diff.
+Definition unary_cells : list (unop * vty * option uaction * uaction) :=
+  flat_map (fun o => flat_map (fun t =>
+    if match gen_uclass o t with Some c => uaction_beq c (spec_uclass o t) | None => false end
+    then [] else [(o, t, gen_uclass o t, spec_uclass o t)]) all_vty) all_unop.
+Definition special_cells : list (binop * vty * bool * option saction * saction) :=
+  flat_map (fun o => flat_map (fun v =>
+    if match gen_special o v with Some c => saction_beq c (spec_special o v) | None => false end
+    then [] else [(o, ty v, match v with VBool b => b | _ => false end, gen_special o v, spec_special o v)])
+    special_reps) all_binop.
+Definition eqcmp_cells : list (vty * vty * option eqk * eqk * option (option cmpk)) :=
+  flat_map (fun ta => flat_map (fun tb =>
+    if match gen_eq ta tb with Some k => eqk_beq k (spec_eq ta tb) | None => false end
+       && match gen_cmp ta tb, spec_cmp IsLt ta tb with
+          | Some (Some k), CCmp k' _ => cmpk_beq k k'
+          | Some None, CTypeError => true
+          | _, _ => false
+          end
+    then [] else [(ta, tb, gen_eq ta tb, spec_eq ta tb, gen_cmp ta tb)]) all_vty) all_vty.
